@@ -350,8 +350,7 @@ Definition names_ok (names : list (list Z * Z)) : Prop :=
 Definition scalar (v : tval) : Prop :=
   match v with VStruct _ | VArray _ _ => False | _ => True end.
 
-(* Arrays are excluded here (struct_roundtrip is _partial); they are covered by the
-   in-Coq sweep of Exec.run_write on every generated case. *)
+(* arrays: all elements have the same shape (the element view type), and the indices fit size_t *)
 Fixpoint wf_val (g : gentab) (v : tval) {struct v} : Prop :=
   match v with
   | VInt t x => fits t x = true
@@ -366,7 +365,13 @@ Fixpoint wf_val (g : gentab) (v : tval) {struct v} : Prop :=
              (name_ok (f_name fi) /\ (emits_value g fi = true -> f_anon fi = false) /\
               (f_ro fi = true -> scalar fv) /\ wf_val g fv) /\ wfl r
          end) fs
-  | VArray _ _ => False
+  | VArray _ es =>
+      Z.of_nat (length es) <= 18446744073709551615 /\
+      (fix wfl (l : list tval) : Prop :=
+         match l with
+         | [] => True
+         | e :: r => (wf_val g e /\ schema_of e = match es with e0 :: _ => schema_of e0 | [] => SBool end) /\ wfl r
+         end) es
   end.
 
 Definition field_ok (g : gentab) (p : finfo * tval) : Prop :=
@@ -381,6 +386,18 @@ Proof.
   destruct H2 as [Hf Hr]. constructor; [exact Hf|apply IH; exact Hr].
 Qed.
 
+Definition elem_sch (es : list tval) : sch := match es with e0 :: _ => schema_of e0 | [] => SBool end.
+
+Lemma wf_array_forall : forall g a es, wf_val g (VArray a es) ->
+  Z.of_nat (length es) <= 18446744073709551615 /\
+  Forall (fun e => wf_val g e /\ schema_of e = elem_sch es) es.
+Proof.
+  intros g a es [H1 H2]. split; [exact H1|]. clear H1. unfold elem_sch.
+  generalize (match es with e0 :: _ => schema_of e0 | [] => SBool end) H2. clear H2.
+  induction es as [|e r IH]; intros sc H2; [constructor|].
+  destruct H2 as [He Hr]. constructor; [exact He|apply IH; exact Hr].
+Qed.
+
 (* fuel that is enough for UpdateFromTextStream on the text of v *)
 Fixpoint need (v : tval) : nat :=
   match v with
@@ -393,6 +410,12 @@ Fixpoint need (v : tval) : nat :=
 
 Fixpoint need_fields (l : list (finfo * tval)) : nat :=
   match l with [] => O | (_, fv) :: r => S (need fv + need_fields r) end.
+
+Fixpoint need_elems (l : list tval) : nat :=
+  match l with [] => O | e :: r => S (need e + need_elems r) end.
+
+Lemma need_array : forall a es, need (VArray a es) = S (S (need_elems es)).
+Proof. intros a es. reflexivity. Qed.
 
 Lemma need_struct : forall fs, need (VStruct fs) = S (S (need_fields fs)).
 Proof.
@@ -411,6 +434,21 @@ Proof.
   intros g path fs. cbn [events_of].
   induction fs as [|[fi fv] r IH]; [reflexivity|]. cbn [events_fields]. rewrite IH. reflexivity.
 Qed.
+
+Fixpoint events_elems (g : gentab) (path : list pelem) (l : list tval) (i : Z) : list event :=
+  match l with
+  | [] => []
+  | e :: r => events_of g (path ++ [PIndex i]) e ++ events_elems g path r (i + 1)
+  end.
+
+Lemma events_array : forall g path a es, events_of g path (VArray a es) = events_elems g path es 0.
+Proof.
+  intros g path a es. cbn [events_of]. generalize 0.
+  induction es as [|e r IH]; intros i; [reflexivity|]. cbn [events_elems]. rewrite IH. reflexivity.
+Qed.
+
+Lemma schema_array : forall a es, schema_of (VArray a es) = SArray (Z.of_nat (length es)) (elem_sch es).
+Proof. reflexivity. Qed.
 
 Definition sch_fields (fs : list (finfo * tval)) : list (list Z * bool * sch) :=
   map (fun p => (f_name (fst p), decodable (fst p), schema_of (snd p))) fs.
@@ -808,7 +846,10 @@ Section RT2.
           [|apply (IH Hok' _ Hpre' b skip wrote w w' fuel Hskip ltac:(lia) Hev)].
         (* a name: value pair *)
         apply apply_events_app in Hev. destruct Hev as [w1 [Hev1 Hev2]].
-        destruct fuel as [|f]; [lia|]. rewrite struct_loop_S.
+        destruct fuel as [|f]; [lia|].
+        assert (Hf1 : (need fv <= f)%nat) by (clear - Hfuel; lia).
+        assert (Hf2 : (S (need_fields r) <= f)%nat) by (clear - Hfuel; lia).
+        rewrite struct_loop_S.
         destruct Hname as [NE TC].
         pose proof Hfo as (O1 & O2 & O3 & O4).
         assert (Hdec : decodable fi = true) by (unfold decodable; rewrite (Hanon eq_refl), ERO; reflexivity).
@@ -881,11 +922,11 @@ Section RT2.
         rewrite HC. change (list_eqb [ch_colon] [ch_colon]) with true. cbn [negb]. cbv iota.
         rewrite (find_field_in _ pre fi fv r eq_refl ND Hdec).
         (* the value *)
-        destruct (Hrt g fo (path ++ [PField (f_name fi)]) b2 [ch_space] (post ++ more) w w1 f Hwf Hfo eq_refl Hpost_after
-                    ltac:(lia) Hev1) as [b3 HV].
+        destruct (Hrt g fo (path ++ [PField (f_name fi)]) b2 [ch_space] (post ++ more) w w1 f Hwf Hfo (eq_refl true) Hpost_after
+                    Hf1 Hev1) as [b3 HV].
         cbn [app] in HV. rewrite HV.
         (* the remaining fields *)
         rewrite app_assoc.
-        apply (IH Hok' _ Hpre' b3 (trail_of fo fv ++ post) true w1 w' f Hskip2 ltac:(lia) Hev2).
+        apply (IH Hok' _ Hpre' b3 (trail_of fo fv ++ post) true w1 w' f Hskip2 Hf2 Hev2).
   Qed.
 End RT2.
